@@ -35,8 +35,15 @@ def rand_xf(rng, general=0.25):
         k = rng.randrange(4)
         co, si = [(1, 0), (0, 1), (-1, 0), (0, -1)][k]
         return (float(co), float(si), float(-si), float(co), float(rng.randrange(0, 10)), float(rng.randrange(0, 10)))
-    if c < 0.78:
+    if c < 0.75:
         return (1.0, rng.choice([0.5, -0.25, 0.0]), rng.choice([0.5, 0.25, -0.5]), 1.0, 0.0, 0.0)
+    if c < 0.78:
+        # a shear along one axis only, by a whole or half number, with an integer translation: integer points often map
+        # to integer points although the transform is no translation / scale
+        k = rng.choice([1.0, -1.0, 2.0, 0.5, -0.5])
+        tx, ty = float(rng.randrange(-3, 4)), float(rng.randrange(-3, 4))
+        s_ = rng.choice([1.0, 1.0, 2.0])
+        return (s_, 0.0, k, 1.0, tx, ty) if rng.random() < 0.5 else (1.0, k, 0.0, s_, tx, ty)
     if c < 0.78 + general * 0.8:
         a = rng.random() * 6.283
         s = 0.3 + rng.random() * 2
@@ -288,6 +295,22 @@ def structured_ops(rng, W, H, cfg):
             else:
                 ops.append(draw_op(rng, W, H, cfg))
         ops.append("poplayer")
+        return ops
+    if rng.random() < 0.08:
+        # one transform (never the identity), then drawing calls with nothing else in the way: no clip, no layer, so every
+        # transform-dependent short cut of the drawing calls is taken
+        t = rand_xf(rng)
+        while t == IDENT:
+            t = rand_xf(rng)
+        ops = ["xf " + xf_tokens(t)]
+        for _ in range(rng.randrange(1, 4)):
+            if rng.random() < 0.5:
+                x, y = float(rng.randrange(-3, W + 1)), float(rng.randrange(-3, H + 1))
+                w, h = float(rng.randrange(-2, W + 4)), float(rng.randrange(-2, H + 4))
+                ops.append("fillrect %d %d %d %d %s %s" % (FB(x), FB(y), FB(w), FB(h), rand_source(rng, W, H, cfg.get("sources")),
+                                                         rand_opts(rng, cfg.get("modes"), cfg.get("aa"))))
+            else:
+                ops.append(draw_op(rng, W, H, cfg))
         return ops
     if rng.random() < 0.08:
         # a run of layer groups with the SAME opacity and blend mode under different clip rectangles (anything cached per
